@@ -91,7 +91,9 @@ def cfg_data_blocks(ctx):
                 a_ = tn
             if t_.value.slice.value == 'size':
                 n_ = tn
-    ok = a_ is not None and n_ is not None
+    a_ = a_ or f"{var}['address']"      # (the block's fields may also be read in place)
+    n_ = n_ or f"{var}['size']"
+    ok = True
     if ok:
         gz = ['memzone_manager.global_zone'] + [unparse(t_.targets[0]) for t_ in ast.walk(fn.node) if isinstance(t_, ast.Assign) and unparse(t_.value) == 'memzone_manager.global_zone']
         ok = False
@@ -214,6 +216,7 @@ STATE_TABLE = {
     ('IfPreprocessorCondition', '_lhs_expression'): {'_handle_matching'},     # construction helper called from __init__ only
     ('IfPreprocessorCondition', '_operator'): {'_handle_matching'},
     ('IfPreprocessorCondition', '_rhs_expression'): {'_handle_matching'},
+    ('DataLine', '_bytes'): {'generate_bytes'},                                # (today through _append_byte; writing its own bytes is this method's role)
     ('EmbeddedString', '_bytes'): {'generate_bytes'},
     ('FillDataLine', '_bytes'): {'generate_bytes'},
     ('FillUntilDataLine', '_bytes'): {'generate_bytes'},
@@ -417,3 +420,52 @@ def register_name_test(ctx):
                 and unparse(c.elt) == f'{unparse(c.generators[0].target)}.{unparse(v.left).split(".")[-1]}'
     ctx.check(ok, 'registers:name-test-ignores-case', f.site(), 'a name is a register name iff its lower-cased spelling is among the lower-cased configured register names',
               '; '.join(unparse(r) for r in rr))
+
+
+# ------------------------------------------------------------------------------------------------ the #include branch of the line loop
+
+class IncludeRegion:
+    """What load_line_objects does with a line it recognises as `#include`: the part of one loop iteration that follows the
+    recognising test (read off the flow graph, so nesting and guard-clause spellings are the same thing)."""
+    def __init__(self, ctx, load, call: ast.Call):
+        g = ctx.cfg(load)
+        self.g, self.call = g, call
+        n0 = g.node_of(call)
+        loops = g.loop_facts(n0)
+        if not loops:
+            raise AnalysisError('the include call is not inside the line loop')
+        self.header = loops[-1][1]
+        # the test that recognises the directive: the innermost dominating test on the line text's `#include` prefix
+        self.test = None
+        self.start = None
+        for d in sorted(g.dominators(n0)):
+            nd = g.nodes[d]
+            if nd.kind == 'branch' and g.nodes[nd.test].kind == 'test':
+                t = g.nodes[nd.test].expr
+                if isinstance(t, ast.Call) and isinstance(t.func, ast.Attribute) and t.func.attr == 'startswith' and nd.polarity \
+                        and len(t.args) == 1 and isinstance(t.args[0], ast.Constant) and str(t.args[0].value).startswith('#include'):
+                    self.test, self.start = t, d
+        region = g.reachable_from(self.start if self.start is not None else n0, avoiding={self.header}, normal_only=True)
+        self.nodes = [g.nodes[i] for i in sorted(region)]
+        self.stmts = [n.stmt for n in self.nodes if n.kind == 'stmt' and n.stmt is not None]
+        self.tests = [n.expr for n in self.nodes if n.kind == 'test']
+        # after the include the iteration is over: nothing but the way back to the loop header follows the splice
+        after = g.reachable_from(n0, avoiding={self.header}, normal_only=True) - {n0}
+        self.after = [g.nodes[i].stmt for i in sorted(after) if g.nodes[i].kind == 'stmt' and g.nodes[i].stmt is not None]
+        self.leaves_loop = g.exit in after
+
+    def assigned(self) -> list[str]:
+        out = []
+        for s in self.stmts:
+            for n in ast.walk(s):
+                if isinstance(n, ast.Assign):
+                    out += [unparse(t) for t in n.targets]
+                elif isinstance(n, (ast.AugAssign, ast.AnnAssign)):
+                    out.append(unparse(n.target))
+        return out
+
+    def calls(self, pred) -> list[ast.Call]:
+        out = []
+        for x in self.stmts + self.tests:
+            out += [c for c in ast.walk(x) if isinstance(c, ast.Call) and pred(c)]
+        return out
